@@ -675,3 +675,139 @@ Proof.
   intros Ha He Hacc. rewrite (g_encode_abs v t _ VNull Ha), m_encode_null in He. apply ok_inj in He. subst o.
   apply null_into_prefilled. exact Hacc.
 Qed.
+
+(* ------------------------------------------------------------------------------------------------ C04 (datacodec half), typed destinations *)
+(* Decode into a variable of ANY modelled Go type (maps keyed by interface{} / arrays / structs holding interfaces included), pre-filled
+   with anything, from ANY bytes: ok or error, never a panic.  The map branch relies on the refusal of unhashable keys (ghashable,
+   fix 280217e); with SetMapIndex reached unconditionally the branch would be PANIC for e.g. map<list<int>,int> into map[interface{}]int. *)
+Definition map_body (v : Z) (k w : cqltype) (kt vt : gty) (old : list (gval * gval)) (src : option bytes) : outcome (list (gval * gval)) :=
+  r <-! readCollectionSize v (src_bytes src);
+  let (size, rest) := r in
+  if size <? 0 then ERR
+  else es <-! dec_entries_g v (dec_elem_with (dec_var v k) kt) (dec_elem_with (dec_var v w) vt) (S (List.length rest)) size rest;
+       kvs <-! all_read es;
+       if forallb (fun kw => ghashable (fst kw)) kvs
+       then OK (fold_left (fun m kw => map_set m (fst kw) (snd kw)) kvs old) else ERR.
+
+Lemma dec_var_map v k w gt d src : dec_var v (TMap k w) gt d src =
+  let wasNull := src_len src =? 0 in
+  match gt with
+  | GMap kt vt => if wasNull then OK (true, GVNilMap) else m <-! map_body v k w kt vt (map_entries d) src; OK (false, GVMap m)
+  | GIface => if wasNull then OK (true, GVNilIface)
+              else match pref (TMap k w) with
+                   | GMap kt vt => m <-! map_body v k w kt vt [] src; OK (false, GVIface (GMap kt vt) (GVMap m))
+                   | _ => ERR
+                   end
+  | _ => ERR
+  end.
+Proof. destruct gt; reflexivity. Qed.
+
+Lemma dec_var_udt v names fs gt d src : dec_var v (TUdt names fs) gt d src =
+  let wasNull := src_len src =? 0 in let n := List.length fs in
+  let name_key (nm : string) : gval := GVLeaf (VBytes (bytes_of_string nm)) in
+  match gt with
+  | GStruct sfs => if wasNull then OK (true, gzero gt)
+                   else match by_name_types sfs names with
+                        | Some targets => ys <-! g_fields v true fs (map snd targets) (src_bytes src); OK (false, GVStruct (store_at (arr_elems d) targets ys))
+                        | None => ERR
+                        end
+  | GMap kt vt => if wasNull then OK (true, GVNilMap)
+                  else if is_string_ty kt then
+                         ys <-! g_fields v true fs (repeat vt n) (src_bytes src);
+                         OK (false, GVMap (fold_left (fun m ny => map_set m (name_key (fst ny)) (snd ny)) (combine names ys) (map_entries d)))
+                       else ERR
+  | GSlice et => if wasNull then OK (true, GVNilSlice) else ys <-! g_fields v true fs (repeat et n) (src_bytes src); OK (false, GVSlice ys)
+  | GArray m et => if wasNull then OK (true, gzero gt)
+                   else ys <-! g_fields v true fs (repeat et m) (src_bytes src); OK (false, GVArray (ys ++ skipn n (arr_elems d)))
+  | GIface => if wasNull then OK (true, GVNilIface)
+              else ys <-! g_fields v true fs (repeat GIface n) (src_bytes src);
+                   OK (false, GVIface (GMap string_ty GIface) (GVMap (fold_left (fun m ny => map_set m (name_key (fst ny)) (snd ny)) (combine names ys) [])))
+  | _ => ERR
+  end.
+Proof. destruct gt; reflexivity. Qed.
+
+Definition NPV (v : Z) (t : cqltype) : Prop := forall gt d src, dec_var v t gt d src <> PANIC.
+
+Lemma leaf_decode_np s gt src : leaf_decode s gt src <> PANIC.
+Proof.
+  unfold leaf_decode. destruct gt; try discriminate.
+  - destruct (scalar_eqb s s0); [|discriminate]. apply bindo_np; [apply dec_scalar_no_panic|discriminate].
+  - apply bindo_np; [apply dec_scalar_no_panic|discriminate].
+Qed.
+
+Lemma dec_elem_with_np dv et src : (forall gt d s, dv gt d s <> PANIC) -> dec_elem_with dv et src <> PANIC.
+Proof. intro H. unfold dec_elem_with. destruct et; (apply bindo_np; [apply H|discriminate]). Qed.
+
+Lemma dec_elems_g_np {A} v (dec : option bytes -> outcome A) : (forall src, dec src <> PANIC) -> forall fuel n src, dec_elems_g v dec fuel n src <> PANIC.
+Proof.
+  intros Hd fuel. induction fuel as [|f IH]; intros n src; cbn [dec_elems_g]; destruct (n <=? 0); try discriminate.
+  apply bindo_np; [apply read_elem_np|intro r]. apply bindo_np; [apply Hd|intro x]. apply bindo_np; [apply IH|discriminate].
+Qed.
+
+Lemma dec_entries_g_np {A B} v (dk : option bytes -> outcome A) (dw : option bytes -> outcome B) :
+  (forall src, dk src <> PANIC) -> (forall src, dw src <> PANIC) -> forall fuel n src, dec_entries_g v dk dw fuel n src <> PANIC.
+Proof.
+  intros Hk Hw fuel. induction fuel as [|f IH]; intros n src; cbn [dec_entries_g]; destruct (n <=? 0); try discriminate.
+  apply bindo_np; [apply read_elem_np|intro rk]. apply bindo_np; [apply read_elem_np|intro rv].
+  apply bindo_np; [apply Hk|intro k]. apply bindo_np; [apply Hw|intro w]. apply bindo_np; [apply IH|discriminate].
+Qed.
+
+Lemma readCollectionSize_np v src : readCollectionSize v src <> PANIC.
+Proof. unfold readCollectionSize. destruct (uses4 v); [apply read_int_np|apply read_short_np]. Qed.
+
+Lemma seq_body_np v e et src : NPV v e -> seq_body v e et src <> PANIC.
+Proof.
+  intro IH. unfold seq_body. apply bindo_np; [apply readCollectionSize_np|]. intros [size rest]. destruct (size <? 0); [discriminate|].
+  apply bindo_np; [apply dec_elems_g_np; intro s; apply dec_elem_with_np; exact IH|intro es]. apply bindo_np; [apply all_read_np|discriminate].
+Qed.
+
+Lemma map_body_np v k w kt vt old src : NPV v k -> NPV v w -> map_body v k w kt vt old src <> PANIC.
+Proof.
+  intros Hk Hw. unfold map_body. apply bindo_np; [apply readCollectionSize_np|]. intros [size rest]. destruct (size <? 0); [discriminate|].
+  apply bindo_np; [apply dec_entries_g_np; intro s; apply dec_elem_with_np; assumption|intro es].
+  apply bindo_np; [apply all_read_np|intro kvs]. destruct (forallb (fun kw => ghashable (fst kw)) kvs); discriminate.
+Qed.
+
+Lemma dec_fields_g_np v udt fs : Forall (NPV v) fs -> forall ets src, dec_fields_g v udt fs ets src <> PANIC.
+Proof.
+  intro H. induction H as [|f fs' Hf Hfs IH]; intros ets src; cbn [dec_fields_g]; [discriminate|].
+  destruct ets as [|et ets']; [discriminate|].
+  apply bindo_np; [destruct udt; [destruct src; [discriminate|apply read_bytes_np]|apply read_bytes_np]|intro e].
+  apply bindo_np; [apply dec_elem_with_np; exact Hf|intro y]. apply bindo_np; [apply IH|discriminate].
+Qed.
+
+Lemma g_fields_np v udt fs ets src : Forall (NPV v) fs -> g_fields v udt fs ets src <> PANIC.
+Proof. intro H. unfold g_fields. apply bindo_np; [apply dec_fields_g_np; exact H|intro r; apply all_read_np]. Qed.
+
+Theorem g_decode_no_panic v t : forall gt d src, g_decode v t gt d src <> PANIC.
+Proof.
+  unfold g_decode. change (NPV v t). induction t using cqltype_ind2; intros gt d src.
+  - cbn [dec_var]. apply leaf_decode_np.
+  - rewrite dec_var_list. cbv zeta. destruct gt; try discriminate; destruct (src_len src =? 0); try discriminate.
+    + apply bindo_np; [apply seq_body_np; exact IHt|discriminate].
+    + apply bindo_np; [apply seq_body_np; exact IHt|intro r]. destruct (Z.of_nat n <? fst r); discriminate.
+    + apply bindo_np; [apply seq_body_np; exact IHt|discriminate].
+  - rewrite dec_var_set, dec_var_list. cbv zeta. destruct gt; try discriminate; destruct (src_len src =? 0); try discriminate.
+    + apply bindo_np; [apply seq_body_np; exact IHt|discriminate].
+    + apply bindo_np; [apply seq_body_np; exact IHt|intro r]. destruct (Z.of_nat n <? fst r); discriminate.
+    + apply bindo_np; [apply seq_body_np; exact IHt|discriminate].
+  - rewrite dec_var_map. cbv zeta. destruct gt; try discriminate; destruct (src_len src =? 0); try discriminate.
+    + apply bindo_np; [apply map_body_np; assumption|discriminate].
+    + destruct (pref (TMap t1 t2)); try discriminate. apply bindo_np; [apply map_body_np; assumption|discriminate].
+  - rewrite dec_var_tuple. cbv zeta. destruct gt; try discriminate; destruct (src_len src =? 0); try discriminate;
+      (apply bindo_np; [apply g_fields_np; exact H|discriminate]).
+  - rewrite dec_var_udt. cbv zeta. destruct gt; try discriminate; destruct (src_len src =? 0); try discriminate.
+    + apply bindo_np; [apply g_fields_np; exact H|discriminate].
+    + apply bindo_np; [apply g_fields_np; exact H|discriminate].
+    + destruct (is_string_ty gt1); [|discriminate]. apply bindo_np; [apply g_fields_np; exact H|discriminate].
+    + destruct (by_name_types fs0 names); [|discriminate]. apply bindo_np; [apply g_fields_np; exact H|discriminate].
+    + apply bindo_np; [apply g_fields_np; exact H|discriminate].
+Qed.
+
+(* the refusal is what stands between the decoder and the panic: an interface-typed key holding a slice is not hashable *)
+Example unhashable_key_refused :
+  g_decode 4 (TMap (TList (TScalar SInt)) (TScalar SInt)) (GMap GIface (GLeaf SInt LVal)) GVNilMap
+           (Some [0;0;0;1; 0;0;0;12; 0;0;0;1; 0;0;0;4; 0;0;0;1; 0;0;0;4; 0;0;0;7]) = ERR /\
+  g_decode 4 (TMap (TScalar SInt) (TScalar SInt)) (GMap GIface (GLeaf SInt LVal)) GVNilMap
+           (Some [0;0;0;1; 0;0;0;4; 0;0;0;1; 0;0;0;4; 0;0;0;7]) = OK (false, GVMap [(GVIface (GLeaf SInt LVal) (GVLeaf (VInt 1)), GVLeaf (VInt 7))]).
+Proof. split; vm_compute; reflexivity. Qed.
